@@ -137,6 +137,9 @@ class Code15(Code13):
 
     def freeze(self):
         for field in "co_consts co_names co_varnames co_freevars co_cellvars".split():
+            if not hasattr(self, field):
+                # co_freevars and co_cellvars do not exist before Python 2.1
+                continue
             val = getattr(self, field)
             if isinstance(val, list):
                 setattr(self, field, tuple(val))
